@@ -125,6 +125,21 @@ fn cmd_check(id: &str, tier: Tier, child: bool) -> i32 {
         }
     }
     let violations = parts.iter().map(|p| p.new_violations).sum::<u64>();
+    if tier == Tier::Thorough {
+        match determinism_proof(id) {
+            Ok((v, a, n)) => {
+                parts[0].notes.push(format!("determinism proof: {} runs x 4 processes (1 and 16 worker threads): verdict logs {}, artefact logs {}", n, if v { "identical" } else { "DIFFER" }, if a { "identical" } else { "differ" }));
+                if !v {
+                    eprintln!("harness error: verdict logs are not deterministic");
+                    return 2;
+                }
+            }
+            Err(e) => {
+                eprintln!("harness error: determinism proof could not run: {}", e);
+                return 2;
+            }
+        }
+    }
     write_evidence(id, tier, &spec, &parts, start.elapsed().as_secs_f64(), violations);
     let runs: u64 = parts.iter().map(|p| p.runs).sum();
     let evals: u64 = parts.iter().map(|p| p.evaluations).sum();
@@ -280,6 +295,32 @@ fn cmd_replay(path: &str) -> i32 {
     }
 }
 
+/// Determinism proof: the same seeds executed twice at 1 and at 16 worker threads in four separate processes;
+/// per-run verdict logs must be byte-identical (harness error otherwise); artefact logs are compared and reported.
+fn determinism_proof(id: &str) -> Result<(bool, bool, usize), String> {
+    let exe = std::env::current_exe().map_err(|e| e.to_string())?;
+    let mut outs: Vec<Vec<(String, String, String)>> = vec![];
+    for threads in ["1", "16", "1", "16"] {
+        let o = std::process::Command::new(&exe).args(["digest", id, "quick", threads]).env("VERIF_SCALE", "0.04").output().map_err(|e| e.to_string())?;
+        if !o.status.success() {
+            return Err(format!("digest child failed: {}", String::from_utf8_lossy(&o.stderr)));
+        }
+        let mut rows: Vec<(String, String, String)> = String::from_utf8_lossy(&o.stdout)
+            .lines()
+            .map(|l| {
+                let f: Vec<&str> = l.split_whitespace().collect();
+                (format!("{} {}", f[0], f[1]), format!("{} {}", f[2], f.get(5).unwrap_or(&"")), format!("{} {}", f[3], f[4]))
+            })
+            .collect();
+        rows.sort();
+        outs.push(rows);
+    }
+    let n = outs[0].len();
+    let verdict_same = outs.iter().all(|o| o.len() == n && o.iter().zip(outs[0].iter()).all(|(a, b)| a.0 == b.0 && a.1 == b.1));
+    let artefact_same = outs.iter().all(|o| o.len() == n && o.iter().zip(outs[0].iter()).all(|(a, b)| a.2 == b.2));
+    Ok((verdict_same, artefact_same, n))
+}
+
 fn cmd_digest(id: &str, tier: Tier, nthreads: usize) -> i32 {
     let env = env::env();
     let Some(spec) = registry::spec(id) else { return 2 };
@@ -292,12 +333,31 @@ fn cmd_digest(id: &str, tier: Tier, nthreads: usize) -> i32 {
 
 fn main() {
     install_panic_hook();
+    let _ = std::collections::hash_map::RandomState::new();
     let args: Vec<String> = std::env::args().collect();
     let tier_of = |s: &str| if s == "thorough" { Tier::Thorough } else { Tier::Quick };
     let code = match args.get(1).map(|s| s.as_str()) {
         Some("check") if args.len() >= 4 => cmd_check(&args[2], tier_of(&args[3]), args.iter().any(|a| a == "--child")),
         Some("replay") if args.len() >= 3 => cmd_replay(&args[2]),
         Some("digest") if args.len() >= 5 => cmd_digest(&args[2], tier_of(&args[3]), args[4].parse().unwrap_or(1)),
+        Some("determinism") if args.len() >= 3 => {
+            let mut rc = 0;
+            for id in &args[2..] {
+                match determinism_proof(id) {
+                    Ok((v, a, n)) => {
+                        println!("determinism {}: {} runs x 4 processes (1 and 16 threads): verdict logs {} artefact logs {}", id, n, if v { "identical" } else { "DIFFER" }, if a { "identical" } else { "differ" });
+                        if !v {
+                            rc = 2;
+                        }
+                    }
+                    Err(e) => {
+                        eprintln!("harness error: {}", e);
+                        rc = 2;
+                    }
+                }
+            }
+            rc
+        }
         Some("entropy-child") if args.len() >= 7 => sc_entropy::child_main(&args[2..]),
         Some("golden-write") if args.len() >= 3 => {
             let dir = &args[2];
